@@ -94,6 +94,8 @@ const (
 	lfNumFieldWild  // 5:b*
 	lfFloatExp      // f:1e21 / f:0.00001  (floats whose shortest text is in exponent form)
 	lfRangeQuotedSpace // f:["b c" TO "d e"]  (string bounds containing a space)
+	lfRangeLong     // f:[xxxx...(120) TO z]  (a bound longer than any fixed look-ahead)
+	lfList11        // f:(a OR b OR ... ) with 11 items
 	lfEqHuge        // f:12345678901234567890  (an integer beyond int64: Parse keeps it as a float64)
 	lfRangeWildLo   // f:[b* TO c]  (a string bound that contains a wildcard character stays a string)
 	lfRangeWildHi   // f:[b TO c?]
@@ -102,7 +104,7 @@ const (
 
 var leafNames = []string{"bare", "eq-str", "eq-int", "bare-int", "gt", "ge", "lt", "le", "range-incl", "range-excl", "range-lo", "range-hi",
 	"range-str", "list", "wild", "regexp", "quoted", "float", "bare-wild", "", "range-excl-str", "range-str-lo", "range-str-hi", "range-all",
-	"range-excl-lo", "range-excl-hi", "range-float", "range-float-excl", "list-int", "wild-mid", "regexp-short", "special-float", "range-str-comma", "eq-special", "empty-quoted", "bare-quoted-wild", "wild-field", "quoted-digits", "range-mixed", "quoted-nasty", "regexp-nasty", "range-big", "eq-big", "non-ascii", "range-whole-float", "quoted-wild", "quoted-regexp", "float-whole", "wild-esc", "wild-esc-wild", "wild-underscore", "wild-punct", "list-mixed", "regexp-backslash", "wild-esc-tail", "non-ascii-3", "wild-run", "float-long", "gt-float-long", "range-special-lo", "range-special-hi", "list-nested", "list-left-nested", "num-field-regexp", "num-field-wild", "float-exp", "range-quoted-space", "eq-huge", "range-wild-lo", "range-wild-hi"}
+	"range-excl-lo", "range-excl-hi", "range-float", "range-float-excl", "list-int", "wild-mid", "regexp-short", "special-float", "range-str-comma", "eq-special", "empty-quoted", "bare-quoted-wild", "wild-field", "quoted-digits", "range-mixed", "quoted-nasty", "regexp-nasty", "range-big", "eq-big", "non-ascii", "range-whole-float", "quoted-wild", "quoted-regexp", "float-whole", "wild-esc", "wild-esc-wild", "wild-underscore", "wild-punct", "list-mixed", "regexp-backslash", "wild-esc-tail", "non-ascii-3", "wild-run", "float-long", "gt-float-long", "range-special-lo", "range-special-hi", "list-nested", "list-left-nested", "num-field-regexp", "num-field-wild", "float-exp", "range-quoted-space", "range-long", "list-11", "eq-huge", "range-wild-lo", "range-wild-hi"}
 
 // concreteFields makes field names the fixed sequence p, q, r, ... (one per leaf) instead of
 // symbolic bytes; used where rows have to be looked up by name.
@@ -294,6 +296,17 @@ func genLeaf(forms []int) *node {
 	case lfNumFieldWild:
 		lf.field = string([]byte{holeByte("digit", "123456789")})
 		lf.s1 = string([]byte{holeByte("str", strFirst), holeByte("wc", "*?")})
+	case lfRangeLong:
+		lf.field = holeField()
+		long := make([]byte, 120)
+		for i := range long {
+			long[i] = 'x'
+		}
+		long[0] = holeByte("str", strFirst)
+		lf.s1, lf.s2 = string(long), "z"
+	case lfList11:
+		lf.field = holeField()
+		lf.s1 = holeStr()
 	case lfFloatExp:
 		lf.field = holeField()
 		lf.d1 = []string{"1e21", "0.00001", "3e25", "1e-7"}[rtChoose("expdec", 4)]
@@ -446,7 +459,13 @@ func printLeaf(lf *leaf, o *printOpts) string {
 		return lf.field + ":[*" + sp(o) + kw("TO", o) + sp(o) + lf.d1 + "]"
 	case lfRangeHi:
 		return lf.field + ":[" + lf.d1 + sp(o) + kw("TO", o) + sp(o) + "*]"
-	case lfRangeStr, lfRangeWildLo, lfRangeWildHi:
+	case lfList11:
+		out := lf.field + ":(" + lf.s1
+		for i := 0; i < 10; i++ {
+			out += sp(o) + kw("OR", o) + sp(o) + string([]byte{'k', byte('a' + i)})
+		}
+		return out + ")"
+	case lfRangeStr, lfRangeWildLo, lfRangeWildHi, lfRangeLong:
 		return lf.field + ":[" + lf.s1 + sp(o) + kw("TO", o) + sp(o) + lf.s2 + "]"
 	case lfList:
 		return lf.field + ":(" + lf.s1 + sp(o) + kw("OR", o) + sp(o) + lf.s2 + ")"
@@ -764,7 +783,24 @@ func matchLeaf(e *expr.Expression, lf *leaf, df string) bool {
 			return false
 		}
 		return rtAnd(litColumn(e.Left, lf.field), rtAnd(litString(items3[0], lf.s1), rtAnd(litString(items3[1], lf.s2), litString(items3[2], lf.s3))))
-	case lfRangeQuotedSpace:
+	case lfList11:
+		if e.Op != expr.In {
+			return false
+		}
+		l11 := asExpr(e.Right)
+		if l11 == nil || l11.Op != expr.List {
+			return false
+		}
+		items11, ok11 := l11.Left.([]*expr.Expression)
+		if !ok11 || len(items11) != 11 {
+			return false
+		}
+		res11 := rtAnd(litColumn(e.Left, lf.field), litString(items11[0], lf.s1))
+		for i := 0; i < 10; i++ {
+			res11 = rtAnd(res11, litString(items11[i+1], string([]byte{'k', byte('a' + i)})))
+		}
+		return res11
+	case lfRangeQuotedSpace, lfRangeLong:
 		if e.Op != expr.Range {
 			return false
 		}
